@@ -63,8 +63,12 @@ where
     let req: HtlcAcceptedRequest = match serde_json::from_value(v) {
         Ok(req) => req,
         Err(e) => {
+            // A hook call must be answered with continue, fail or resolve. A
+            // request we cannot parse (e.g. an onion payload that is not a
+            // valid tlv stream) is not a trampoline payment: leave the htlc
+            // to core lightning, unmodified.
             error!("failed to deserialize htlc accepted request: {:?}", e);
-            return Err(e.into());
+            return Ok(serde_json::json!({"result": "continue"}));
         }
     };
     let resp = plugin.state().htlc_manager.handle_htlc(&req).await;
